@@ -199,8 +199,10 @@ class Monitor(object):
             # SIGUSR1 with a new file: later clients are served by the new table / rules.  Clients that are in the middle of
             # their registration are outside what C06 / C17 say about which services are asked (recorded assumption):
             # their queries are still tracked (answers are owed), but not judged for timing.
-            self.cfg = proto.Config([tuple(x) for x in ev["services"]], self.cfg.timeout,
+            mods_ = getattr(self.cfg, "modules", None)
+            self.cfg = proto.Config([tuple(x) for x in ev["services"]], ev["timeout"] if "timeout" in ev else self.cfg.timeout,
                                     ev["rules"] if ev.get("rules") is not None else self.cfg.rules, self.cfg.use_class)
+            self.cfg.modules = mods_
             for n, p in self.cfg.services:
                 self.protos.setdefault(n, p)
             self.stats["reloads"] += 1
